@@ -244,13 +244,17 @@ package state
 //@   ensures err == nil ==> SharesConsistentWithOld()
 
 //@ func MutableState.AddRewardSingleAttenuated
-//@   props C05
+//@   props C05 C10
+//@   precall quantity\.Move$ :: QV(argAs[*quantity.Quantity](1)) >= QV(argAs[*quantity.Quantity](2))
+//@   precall SharePool\)\.Deposit$ :: QV(argAs[*quantity.Quantity](1)) >= QV(argAs[*quantity.Quantity](2))
 //@   requires s != nil && ctx != nil && factor != nil && QV(factor) >= 0
 //@   ensures err == nil ==> Ledger() == old(Ledger()) && GSupply == old(GSupply) && GGovDep == old(GGovDep) && GLastFees == old(GLastFees)
 //@   ensures err == nil ==> SharesConsistentWithOld()
 
 //@ func MutableState.AddRewards
-//@   props C05
+//@   props C05 C10
+//@   precall quantity\.Move$ :: QV(argAs[*quantity.Quantity](1)) >= QV(argAs[*quantity.Quantity](2))
+//@   precall SharePool\)\.Deposit$ :: QV(argAs[*quantity.Quantity](1)) >= QV(argAs[*quantity.Quantity](2))
 //@   requires s != nil && ctx != nil && factor != nil && QV(factor) >= 0
 //@   ensures err == nil ==> Ledger() == old(Ledger()) && GSupply == old(GSupply) && GGovDep == old(GGovDep) && GLastFees == old(GLastFees)
 //@   ensures err == nil ==> SharesConsistentWithOld()
